@@ -8,6 +8,7 @@
   tag items are tied to the code by the correspondence check only).
 -/
 import Ctrmml.Proofs.MdsPitch
+import Ctrmml.Proofs.MdsBase
 namespace Ctrmml.MdsData
 open Ctrmml.MdsSpec
 
@@ -37,6 +38,31 @@ theorem C11_fm_2op_spec (b : NBytes) (d : FmDef) (hd : decodeFm b = some d) (hby
 example : ∃ b d, decodeFm b = some d ∧ (∀ x ∈ b, x < 256) ∧ d.op4.tl ≠ d.op2.tl :=
   ⟨fm4opBytes [4, 0, 20, 5, 0, 1, 1, 9, 0, 4, 7, 0, 31, 8, 4, 7, 2, 0, 0, 4, 0, 0, 20, 5, 0, 1, 1, 9, 0, 1, 7, 0,
       31, 8, 4, 7, 2, 127, 0, 1, 0, 0] 48, _, rfl, by decide, by decide⟩
+
+/-- the base of a 2op definition is always a 30-byte FM register image.  `FmInv st`: every id
+whose `ins_type` is `INS_FM` has an `envelope_map` entry that points at a 30-byte bank entry.  It
+holds in every state `read_song` reaches, for every tag list (so at every call of
+`add_ins_fm_2op`, which happens in the state reached on a prefix of the tags), whatever the
+definitions are: ids redefined through other keys (`@1` / `@01`), empty PSG tags, failures. -/
+theorem C11_fm_base_inv {α} (A : Arith α) (noext : Bool) (tags : List (String × List String)) :
+    FmInv (readSong A noext tags).1 :=
+  FmInv_readTags A tags (initState noext) (FmInv_init noext)
+
+/-- …and in such a state `add_ins_fm_2op` succeeds only when the referenced instrument is of type
+FM, its image — the `base` given to `fm2opBytes`, hypothesis of `C11_fm_2op_spec` up to
+`decodeFm` — has exactly 30 bytes, and the invariant is kept.  Before fix 85bdeee a PSG
+envelope of 2 bytes could be the base: `fm_data[27]`, `fm_data[29]` were written past its size
+and the player read 30 bytes from it. -/
+theorem C11_fm_2op_base (st st' : State) (id : Nat) (tag : List String) (hinv : FmInv st)
+    (h : addInsFm2op st id tag = .ok st') :
+    ∃ bi base, mget st.envMap (nth ((tag.take 6).map fun t => u8 (tokVal t)) 0) = some bi ∧
+      st.bank[bi.toNat]? = some base ∧ base.length = 30 ∧ FmInv st' := by
+  obtain ⟨h1, bi, base, e1, e2, e3⟩ := FmInv_fm2op st st' id tag hinv h
+  exact ⟨bi, base, e1, e2, e3, h1⟩
+
+/-- the invariant is not vacuous: after an FM and a 2op definition both ids are of type FM -/
+example : mget (readSong Arith.rat false [("@1", "fm" :: (List.replicate 42 "1")), ("@2", ["2op", "1", "2", "3", "4", "5", "0"])]).1.tyMap 2
+    = some (Tables.mdsdrv_INS_FM : Int) := by decide
 
 /-- PSG envelopes, for EVERY arithmetic `A` whose single slides have the slide shape
 (`SlideOK A`: for all initial, target ≤ 15 and 1 ≤ length ≤ 255 the frame values of
@@ -120,61 +146,93 @@ written node; `envChunks` = the iterations of the whole envelope + the loop inde
 `render` = their bytes (`pitchItems_chunks`: the model's token loop produces exactly
 `render (envChunks …)`). -/
 
-/-- one written node `initial>target:length`: its iterations last exactly the node length
-(`pitchLength`: the written length, or `lround(|Δ|+1.5) >> 4`, at least 1) in total, each 1..255
-frames, all but the last exactly 255 (the split the code makes), every field fits its format
-(8.8 start, 16-bit step; signed-byte step in the compact form), and the first iteration starts
-at the written pitch in 8.8 (`chunkStart A initial` = `(int16)(initial*256)` capped at 0x7eff). -/
-theorem C11_pitch_node {α} (A : Arith α) (ue ex : Bool) (i t : α) (e : Option Int) (cs : List RawChunk)
-    (h : nodeOf A ue ex i t e = some cs) (hp : 0 < pitchLength A i t e) :
+/-- one written node `initial>target:length` pushed behind `size` bytes of envelope: its
+iterations last exactly the node length (`pitchLength`: the written length, or
+`lround(|Δ|+1.5) >> 4`, at least 1) in total, each 1..255 frames, all but the last exactly 255
+(the split the code makes), every field fits its format (8.8 start, 16-bit step; signed-byte
+step in the compact form), the first iteration starts at the written pitch in 8.8
+(`chunkStart A initial` = `(int16)(initial*256)` capped at 0x7eff), and — the limit
+`add_pitch_node` now enforces — the envelope then holds at most 256 nodes' worth of bytes. -/
+theorem C11_pitch_node {α} (A : Arith α) (ue ex : Bool) (size : Nat) (i t : α) (e : Option Int) (cs : List RawChunk)
+    (h : nodeOf A ue ex size i t e = .ok cs) (hp : 0 < pitchLength A i t e) :
     (cs.map (·.len)).sum = pitchLength A i t e ∧ (∀ n, e = some n → 1 ≤ n → pitchLength A i t e = n) ∧
       (∀ c ∈ cs, 1 ≤ c.len ∧ c.len ≤ 255) ∧ (∀ c ∈ cs.dropLast, c.len = 255) ∧
       (∀ c ∈ cs, -32768 ≤ c.start ∧ c.start ≤ 32767 ∧ -32768 ≤ c.delta ∧ c.delta ≤ 32767 ∧
         (ex = false → -128 ≤ c.delta ∧ c.delta ≤ 127)) ∧
-      (cs.head?.map (·.start)) = some (chunkStart A i) := by
-  obtain ⟨a, b, c, d, f⟩ := nodeOf_spec A ue ex i t e cs h
+      (cs.head?.map (·.start)) = some (chunkStart A i) ∧
+      size + nodeSize ex * cs.length ≤ nodeSize ex * 256 := by
+  obtain ⟨a, b, c, d, f, g⟩ := nodeOf_spec A ue ex size i t e cs h
   have hq : ∀ n, e = some n → 1 ≤ n → pitchLength A i t e = n := by
     intro n hn h1
     subst hn
     simp only [pitchLength, Option.getD_some]
     split <;> omega
-  exact ⟨by omega, hq, b, c, d, f hp⟩
+  have hne : cs ≠ [] := by
+    intro hc
+    subst hc
+    simp at a
+    omega
+  exact ⟨by omega, hq, b, c, d, f hp, g hne⟩
+
+/-- the limit is sharp and is an error, not a silent wrap: a node whose iterations do not fit
+behind the `size` bytes already there (more than 256 nodes in all) makes `add_pitch_node` throw —
+`nodeOf` never returns more iterations than fit, and it throws nothing but `invalid_argument`
+(only in the compact form with extended pitch allowed) and the too-long InputError. -/
+theorem C11_pitch_node_limit {α} (A : Arith α) (ue ex : Bool) (size : Nat) (i t : α) (e : Option Int) :
+    (∀ cs, nodeOf A ue ex size i t e = .ok cs → cs ≠ [] → size + nodeSize ex * cs.length ≤ nodeSize ex * 256) ∧
+    (∀ err, nodeOf A ue ex size i t e = .error err → err = .tooLong ∨ (err = .invalidArgument ∧ ue = true ∧ ex = false)) :=
+  ⟨fun cs h => (nodeOf_spec A ue ex size i t e cs h).2.2.2.2.2, fun err h => nodeChunks_error A ue ex t _ _ _ i err h⟩
 
 /-- the vibrato macro `Vbase:depth:rate` is a loop mark followed by the three nodes
 `base>top:rate`, `top>-top:2*rate`, `-top>base:rate` (top = depth/2 + base), each value
-rendered with `%f` and read back (`fmt6`). -/
+rendered with `%f` and read back (`fmt6`); the doubled rate is computed in `long long` and read
+back into an `int` (`i32`, the identity for |rate| < 2^30 — `C11_vibrato_rate`).  Same result
+and same exception. -/
 theorem C11_pitch_vibrato {α} (A : Arith α) (ue ex : Bool) (cs : List RawChunk) (lp : Int) (b d : α) (r : Int) :
     pitchItem A ue ex (render ex cs, lp) (.vib b d r) =
-      pitchItems A ue ex [.loop, .node (A.fmt6 b) (A.fmt6 d) (some r), .node (A.fmt6 d) (A.fmt6 (A.neg d)) (some (r * 2)),
+      pitchItems A ue ex [.loop, .node (A.fmt6 b) (A.fmt6 d) (some r), .node (A.fmt6 d) (A.fmt6 (A.neg d)) (some (i32 (r * 2))),
         .node (A.fmt6 (A.neg d)) (A.fmt6 b) (some r)] (render ex cs, lp) := by
   rw [pitchItems_chunks, pitchItem_chunks]
-  simp only [itemChunks, envChunks, isMark, Option.bind_some, List.append_nil, if_true, Bool.false_eq_true, if_false]
-  cases nodeOf A ue ex (A.fmt6 b) (A.fmt6 d) (some r) with
-  | none => simp
-  | some c1 =>
-    cases nodeOf A ue ex (A.fmt6 d) (A.fmt6 (A.neg d)) (some (r * 2)) with
-    | none => simp
-    | some c2 =>
-      cases nodeOf A ue ex (A.fmt6 (A.neg d)) (A.fmt6 b) (some r) with
-      | none => simp
-      | some c3 => simp [List.append_assoc]
+  simp only [itemChunks, envChunks, isMark, if_true, Bool.false_eq_true, if_false, Except.bind, List.append_nil,
+    List.length_append]
+  cases nodeOf A ue ex (nodeSize ex * cs.length) (A.fmt6 b) (A.fmt6 d) (some r) with
+  | error e => simp [Except.map]
+  | ok c1 =>
+    simp only []
+    cases nodeOf A ue ex (nodeSize ex * (cs.length + c1.length)) (A.fmt6 d) (A.fmt6 (A.neg d)) (some (i32 (r * 2))) with
+    | error e => simp [Except.map]
+    | ok c2 =>
+      simp only []
+      cases nodeOf A ue ex (nodeSize ex * (cs.length + c1.length + c2.length)) (A.fmt6 (A.neg d)) (A.fmt6 b) (some r) with
+      | error e => simp [Except.map]
+      | ok c3 => simp [Except.map, List.append_assoc]
+
+/-- the doubled vibrato rate is exact for every rate below 2^30 in magnitude (no signed
+overflow any more: the product is formed in `long long`) -/
+theorem C11_vibrato_rate (r : Int) (h1 : -1073741824 ≤ r) (h2 : r < 1073741824) : i32 (r * 2) = r * 2 := by
+  unfold i32; omega
 
 /-- compact form read back: when the envelope compiles in the compact form to iterations `cs`
-with loop index `lp` (fewer than 256 nodes), the independent reader `runPitchEnv` decodes
-the bytes `pitchFinish (render cs) lp` to exactly those iterations (start, signed-byte step,
-frames), the last node holding for ever when there is no loop mark, and the loop target is
-the index of the first iteration after the mark. -/
+with loop index `lp`, the independent reader `runPitchEnv` decodes the bytes
+`pitchFinish (render cs) lp` to exactly those iterations (start, signed-byte step, frames), the
+last node holding for ever when there is no loop mark, and the loop target is the index of the
+first iteration after the mark.  There are never more than 256 nodes (`add_pitch_node` rejects
+the 257th), so every node index fits its byte; the only hypothesis left is on the loop mark:
+`lp < 256` excludes the one case where it sits behind the 256th node, which `addPitch` rejects
+before it calls `pitchFinish` (`C11_pitch_loop_checked`). -/
 theorem C11_pitch_decode_compact {α} (A : Arith α) (ue : Bool) (items : List (PItem α)) (cs : List RawChunk) (lp : Int)
-    (h : envChunks A ue false items [] (-1) = some (cs, lp)) (hn : cs.length < 256) (hne : cs ≠ []) :
-    (lp = -1 ∧ runPitchEnv false (pitchFinish (render false cs) lp) =
+    (h : envChunks A ue false items [] (-1) = .ok (cs, lp)) (hlp : lp < 256) (hne : cs ≠ []) :
+    cs.length ≤ 256 ∧
+    ((lp = -1 ∧ runPitchEnv false (pitchFinish (render false cs) lp) =
         some { chunks := cs.dropLast.map (toChunk · none) ++
                  (cs.getLast?.map fun c => { toChunk c none with frames := none }).toList, loopTo := none }) ∨
     (∃ k : Nat, lp = k ∧ k ≤ cs.length ∧ runPitchEnv false (pitchFinish (render false cs) lp) =
-        some { chunks := cs.map (toChunk · none), loopTo := some k }) := by
-  obtain ⟨hok, hlp, _⟩ := envChunks_ok A ue false items [] (-1) cs lp h (by simp) (Or.inl rfl)
+        some { chunks := cs.map (toChunk · none), loopTo := some k })) := by
+  obtain ⟨hok, hlp', _, h256⟩ := envChunks_ok A ue false items [] (-1) cs lp h (by simp) (Or.inl rfl)
+  refine ⟨h256 (by simp), ?_⟩
   have hcr : ∀ c ∈ cs, CR c := fun c hc => by simpa [ChunkOK] using hok c hc
   have hr : render false cs = cs.flatMap bytes4 := by simp [render, foldl_compact]
-  rcases hlp with rfl | ⟨h1, h2⟩
+  rcases hlp' with rfl | ⟨h1, h2⟩
   · left
     refine ⟨rfl, ?_⟩
     obtain ⟨init, c, rfl⟩ : ∃ init c, cs = init ++ [c] := ⟨cs.dropLast, cs.getLast hne, (List.dropLast_concat_getLast hne).symm⟩
@@ -187,55 +245,103 @@ theorem C11_pitch_decode_compact {α} (A : Arith α) (ue : Bool) (items : List (
 
 /-- extended form read back (used when some step does not fit a signed byte): 16-bit steps,
 every node continues at the next one, the last one at the loop node — or at itself, for ever,
-when there is no loop mark. -/
+when there is no loop mark.  Holds for every envelope that compiles (at most 256 nodes; with
+exactly 256 the next-node byte of the last node wraps to 0 and is overwritten by the end
+command), again with `lp < 256` as the only hypothesis. -/
 theorem C11_pitch_decode_extended {α} (A : Arith α) (ue : Bool) (items : List (PItem α)) (cs : List RawChunk) (lp : Int)
-    (h : envChunks A ue true items [] (-1) = some (cs, lp)) (hn : cs.length < 256) (hne : cs ≠ []) :
-    (lp = -1 ∧ runPitchEnv true (pitchFinishExt (render true cs) lp) =
+    (h : envChunks A ue true items [] (-1) = .ok (cs, lp)) (hlp : lp < 256) (hne : cs ≠ []) :
+    cs.length ≤ 256 ∧
+    ((lp = -1 ∧ runPitchEnv true (pitchFinishExt (render true cs) lp) =
         some { chunks := extChunks 0 cs.dropLast ++
                  (cs.getLast?.map fun c => { toChunk c (some (cs.length - 1)) with frames := none }).toList, loopTo := none }) ∨
     (∃ k : Nat, lp = k ∧ k ≤ cs.length ∧ runPitchEnv true (pitchFinishExt (render true cs) lp) =
         some { chunks := extChunks 0 cs.dropLast ++ (cs.getLast?.map fun c => toChunk c (some k)).toList,
-               loopTo := some k }) := by
-  obtain ⟨hok, hlp, _⟩ := envChunks_ok A ue true items [] (-1) cs lp h (by simp) (Or.inl rfl)
+               loopTo := some k })) := by
+  obtain ⟨hok, hlp', _, h256⟩ := envChunks_ok A ue true items [] (-1) cs lp h (by simp) (Or.inl rfl)
+  have hn := h256 (by simp)
+  refine ⟨hn, ?_⟩
   have her : ∀ c ∈ cs, ER c := fun c hc => by simpa [ChunkOK] using hok c hc
   have hr : render true cs = ext6 0 cs := by simp [render, foldl_ext cs [] 0 rfl]
   obtain ⟨init, c, rfl⟩ : ∃ init c, cs = init ++ [c] := ⟨cs.dropLast, cs.getLast hne, (List.dropLast_concat_getLast hne).symm⟩
-  have hl : init.length + 1 < 256 := by simpa using hn
-  rcases hlp with rfl | ⟨h1, h2⟩
+  have hl : init.length < 256 := by simp at hn; omega
+  rcases hlp' with rfl | ⟨h1, h2⟩
   · left
     refine ⟨rfl, ?_⟩
     rw [hr, ext_noloop init c her hl]
     simp
   · right
     obtain ⟨k, rfl⟩ : ∃ k : Nat, lp = k := ⟨lp.toNat, by omega⟩
-    have hk : k < 256 := by simp at h2; omega
+    have hk : k < 256 := by omega
     refine ⟨k, rfl, by simp at h2 ⊢; omega, ?_⟩
     rw [hr, ext_loop init c k hk her hl]
     simp
 
-/-- which form: under `noextpitch` (`ue = false`) the compact form never fails — a step that
-does not fit is capped to a signed byte (`clamp8`); the extended form never fails; and when
-the compact form succeeds with extended pitch allowed, every step fits a signed byte and the
-iterations are exactly those of the extended form (it fails, by definition of `nodeChunks`, at
-the first iteration whose step `chunkDelta` is outside -128..127, and `addPitch` then compiles
-the extended form). -/
-theorem C11_pitch_form {α} (A : Arith α) (target : α) (fuel : Nat) (length : Int) (counter : α) :
-    (nodeChunks A false false target fuel length counter).isSome = true ∧
-    (nodeChunks A true true target fuel length counter).isSome = true ∧
-    (∀ cs, nodeChunks A true false target fuel length counter = some cs →
-        nodeChunks A true true target fuel length counter = some cs ∧ ∀ c ∈ cs, -128 ≤ c.delta ∧ c.delta ≤ 127) := by
-  refine ⟨?_, C11_pitch_ext_total A target fuel length counter, ?_⟩
-  · induction fuel generalizing length counter with
-    | zero => simp [nodeChunks]
-    | succ fuel ih =>
-      unfold nodeChunks
-      by_cases hl : length ≤ 0
-      · simp [hl]
-      · simp only [hl, if_false, Bool.not_false, Bool.false_and, Bool.and_false, Bool.true_and, Bool.false_eq_true, if_true]
-        simpa using ih _ _
+/-- the hypothesis `lp < 256` of the two read-back theorems is what `add_pitch_envelope` /
+`add_extended_pitch_envelope` check before they emit the end command: whenever `addPitch`
+accepts a (non-empty) definition, the loop position of the form it stores is below 256 — a loop
+mark behind the 256th node is an InputError, not a wrapped byte. -/
+theorem C11_pitch_loop_checked {α} (A : Arith α) (st st' : State) (id : Nat) (tag : List String)
+    (h : addPitch A st id tag = .ok st') (hne : tag ≠ []) :
+    (∃ env lp, pitchTokens A st.useExt false tag [] (-1) = .ok (env, lp) ∧ lp < 256) ∨
+    (pitchTokens A st.useExt false tag [] (-1) = .error .invalidArgument ∧
+      ∃ env lp, pitchTokens A st.useExt true tag [] (-1) = .ok (env, lp) ∧ lp < 256) := by
+  unfold addPitch at h
+  have hte : tag.isEmpty = false := by cases tag <;> simp_all
+  simp only [hte, Bool.false_eq_true, if_false] at h
+  cases h1 : pitchTokens A st.useExt false tag [] (-1) with
+  | ok r =>
+    obtain ⟨env, lp⟩ := r
+    left
+    refine ⟨env, lp, rfl, ?_⟩
+    simp only [h1] at h
+    split at h
+    · cases h
+    · split at h
+      · cases h
+      · rename_i hlp
+        simp only [Tables.mdsdrv_pitch_loop_max] at hlp
+        omega
+  | error e =>
+    cases e with
+    | input => simp [h1] at h
+    | tooLong => simp [h1] at h
+    | invalidArgument =>
+      right
+      refine ⟨rfl, ?_⟩
+      simp only [h1] at h
+      cases h2 : pitchTokens A st.useExt true tag [] (-1) with
+      | ok r =>
+        obtain ⟨env, lp⟩ := r
+        refine ⟨env, lp, rfl, ?_⟩
+        simp only [h2] at h
+        split at h
+        · cases h
+        · rename_i hlp
+          simp only [Tables.mdsdrv_pitch_loop_max] at hlp
+          omega
+      | error e => cases e <;> simp [h2] at h
+
+/-- which form: under `noextpitch` (`ue = false`) the compact form never throws
+`invalid_argument` — a step that does not fit is capped to a signed byte (`clamp8`); neither
+does the extended form; the only other exception of `add_pitch_node` is the too-long
+InputError; and when the compact form succeeds with extended pitch allowed, every step fits a
+signed byte and the iterations are exactly those of the extended form behind the same number of
+nodes `n` (it fails, by definition of `nodeChunks`, at the first iteration whose step
+`chunkDelta` is outside -128..127, and `addPitch` then compiles the extended form). -/
+theorem C11_pitch_form {α} (A : Arith α) (target : α) (fuel n : Nat) (length : Int) (counter : α) :
+    (∀ size e, nodeChunks A false false target fuel size length counter = .error e → e = .tooLong) ∧
+    (∀ ue size e, nodeChunks A ue true target fuel size length counter = .error e → e = .tooLong) ∧
+    (∀ cs, nodeChunks A true false target fuel (nodeSize false * n) length counter = .ok cs →
+        nodeChunks A true true target fuel (nodeSize true * n) length counter = .ok cs ∧
+        ∀ c ∈ cs, -128 ≤ c.delta ∧ c.delta ≤ 127) := by
+  refine ⟨?_, fun ue size e h => C11_pitch_ext_total A ue target fuel size length counter e h, ?_⟩
+  · intro size e h
+    rcases nodeChunks_error A false false target fuel size length counter e h with h | ⟨_, h, _⟩
+    · exact h
+    · cases h
   · intro cs h
-    refine ⟨?_, fun c hc => (nodeChunks_range A true false target fuel length counter cs h c hc).2.2.2.2 rfl⟩
-    induction fuel generalizing length counter cs with
+    refine ⟨?_, fun c hc => (nodeChunks_range A true false target fuel _ length counter cs h c hc).2.2.2.2 rfl⟩
+    induction fuel generalizing n length counter cs with
     | zero => simpa [nodeChunks] using h
     | succ fuel ih =>
       unfold nodeChunks at h ⊢
@@ -245,9 +351,20 @@ theorem C11_pitch_form {α} (A : Arith α) (target : α) (fuel : Nat) (length : 
           if_true] at h ⊢
         split at h
         · cases h
-        · simp only [Option.map_eq_some_iff] at h
-          obtain ⟨cs', h1, rfl⟩ := h
-          simp [ih _ _ cs' h1]
+        · have e4 : nodeSize false * n + nodeSize false = nodeSize false * (n + 1) := by rw [Nat.mul_add, Nat.mul_one]
+          have e6 : nodeSize true * n + nodeSize true = nodeSize true * (n + 1) := by rw [Nat.mul_add, Nat.mul_one]
+          rw [e4] at h
+          rw [e6]
+          have hlim : (nodeSize true * (n + 1) > nodeSize true * Tables.mdsdrv_pitch_node_max) ↔
+              (nodeSize false * (n + 1) > nodeSize false * Tables.mdsdrv_pitch_node_max) := by
+            simp only [nodeSize_eq, if_true, Bool.false_eq_true, if_false, Tables.mdsdrv_pitch_node_max]; omega
+          split at h
+          · cases h
+          · rename_i hsz
+            rw [if_neg (by rw [hlim]; exact hsz)]
+            simp only [map_eq_ok] at h ⊢
+            obtain ⟨cs', h1, rfl⟩ := h
+            exact ⟨cs', ih _ _ _ cs' h1, rfl⟩
 
 /-- a written pitch item (exact decimals, `Spec.PitchItem`) as the parsed item of the model -/
 def writtenItem {α} (A : Arith α) : PitchItem → PItem α
@@ -258,21 +375,22 @@ def writtenItem {α} (A : Arith α) : PitchItem → PItem α
 /-- The full statement of the PSG and pitch clauses for the arithmetic the C++ runs (binary64),
 NOT proved as such.  What is proved instead: `C11_psg_frames` + `C11_psg_marks` give the PSG
 conjunct for every arithmetic with `SlideOK` and written size < 256; `C11_pitch_node`,
-`C11_pitch_vibrato`, `C11_pitch_decode_compact/_extended`, `C11_pitch_form` give the structural
-pitch clauses for every arithmetic.  Missing: `SlideOK Arith.float` (finite; checked exhaustively
+`C11_pitch_node_limit`, `C11_pitch_vibrato`, `C11_pitch_decode_compact/_extended`, `C11_pitch_form` give the
+structural pitch clauses for every arithmetic.  Missing: `SlideOK Arith.float` (finite; checked exhaustively
 against the real code every thorough run), and for pitch the comparison of the model's
 `chunkStart`/`chunkDelta` in binary64 with the exact decimals (`pitchMeets`: start = ⌊256·initial⌋,
 error below one step per frame) — evaluated by the judge on the real bytes.  The statement is
-in fact FALSE at two known findings: a loop/next index above 255 wraps (`psg:index-overflow`,
-`pitch:index-overflow`), and a per-frame step outside int16 wraps (`pitch:step-overflow`). -/
+in fact FALSE at known findings: a PSG loop position above 255 wraps (`psg:index-overflow`), a
+pitch loop mark behind the 256th node wraps (what is left of `pitch:index-overflow` now that a
+257th node is an InputError), and a per-frame step outside int16 wraps (`pitch:step-overflow`). -/
 def C11_full_statement : Prop :=
   (∀ items : List PsgItem, itemsOk items false = true →
     ∃ e, expandPsg (psgFinish (items.foldl (psgItem Arith.float) {})) = some e ∧ psgMeets items e = true) ∧
   (∀ (noext : Bool) (items : List PitchItem) (cs : List RawChunk) (lp : Int),
-    (envChunks Arith.float (!noext) false (items.map (writtenItem Arith.float)) [] (-1) = some (cs, lp) → cs ≠ [] →
+    (envChunks Arith.float (!noext) false (items.map (writtenItem Arith.float)) [] (-1) = .ok (cs, lp) → cs ≠ [] →
       ∃ e, runPitchEnv false (pitchFinish (render false cs) lp) = some e ∧ pitchMeets noext items e = true) ∧
-    (envChunks Arith.float (!noext) false (items.map (writtenItem Arith.float)) [] (-1) = none →
-      envChunks Arith.float (!noext) true (items.map (writtenItem Arith.float)) [] (-1) = some (cs, lp) → cs ≠ [] →
+    (envChunks Arith.float (!noext) false (items.map (writtenItem Arith.float)) [] (-1) = .error .invalidArgument →
+      envChunks Arith.float (!noext) true (items.map (writtenItem Arith.float)) [] (-1) = .ok (cs, lp) → cs ≠ [] →
       ∃ e, runPitchEnv true (pitchFinishExt (render true cs) lp) = some e ∧ pitchMeets noext items e = true))
 
 /-- `SlideOK` in exact arithmetic, by kernel evaluation of the model's own slide loop over `Q`:
